@@ -121,7 +121,7 @@ def gen_value(rng, t, p_missing=0.15, top=True, allow_missing=True):
         seen = set()
         for _ in range(n):
             v = gen_value(rng, t[1], p_missing, False)
-            key = canon_case(t[1], v).replace('f8000000000000000', 'f0000000000000000')   # -0.0 == 0.0 in a Python set
+            key = canon_case(t[1], v).replace('f8000000000000000', 'f0000000000000000').replace('g80000000', 'g00000000')   # -0.0 == 0.0 in a Python set
             if key not in seen:
                 seen.add(key)
                 out.append(v)
@@ -132,7 +132,7 @@ def gen_value(rng, t, p_missing=0.15, top=True, allow_missing=True):
         seen = set()
         for _ in range(n):
             kk = gen_value(rng, t[1], p_missing * 0.5, False)
-            key = canon_case(t[1], kk).replace('f8000000000000000', 'f0000000000000000')
+            key = canon_case(t[1], kk).replace('f8000000000000000', 'f0000000000000000').replace('g80000000', 'g00000000')
             if key not in seen:
                 seen.add(key)
                 out.append([kk, gen_value(rng, t[2], p_missing, False)])
@@ -157,13 +157,18 @@ def gen_value(rng, t, p_missing=0.15, top=True, allow_missing=True):
 # canonical text (the observable that is compared): type-directed, sets / dict entries sorted by their own canonical text
 
 
-def _flt(b):
+def f32bits(x):
+    """binary32 pattern of a Python float that is exactly a float32"""
+    return struct.unpack('<I', struct.pack('<f', x))[0]
+
+
+def _flt(b, wide=True):
     x = bits2f(b)
     if x != x:
         return 'nan'
     if math.isinf(x):
         return 'inf' if x > 0 else '-inf'
-    return 'f%016x' % b
+    return 'f%016x' % b if wide else 'g%08x' % f32bits(x)
 
 
 def canon_case(t, v):
@@ -177,7 +182,7 @@ def canon_case(t, v):
     if k == 'str':
         return 's' + cps(v)
     if k in ('f32', 'f64'):
-        return _flt(v[1])
+        return _flt(v[1], k == 'f64')
     if k == 'call':
         return 'call(%s;%d)' % (','.join(map(str, v[1])), 1 if v[2] else 0)
     if k == 'locus':
@@ -307,7 +312,9 @@ class HailValues:
         if k in ('f32', 'f64'):
             if isinstance(x, bool) or not isinstance(x, (float, np.floating)):
                 raise TypeError(f'float expected, got {type(x).__name__}')
-            return _flt(f2bits(float(x)))
+            if k == 'f32' and float(x) == float(x) and not math.isinf(float(x)) and f32round(float(x)) != float(x):
+                raise TypeError(f'{x!r} is not a float32')
+            return _flt(f2bits(float(x)), k == 'f64')
         if k == 'call':
             if not isinstance(x, self.Call):
                 raise TypeError(f'Call expected, got {type(x).__name__}')
@@ -376,7 +383,7 @@ def val_tokens(t, v):
             return ['fnan']
         if math.isinf(x):
             return ['finf' if x > 0 else 'fninf']
-        return ['f', str(v[1])]
+        return ['f', str(v[1] if k == 'f64' else f32bits(x))]
     if k == 'call':
         return ['call', '1' if v[2] else '0', str(len(v[1]))] + [str(a) for a in v[1]]
     if k == 'locus':
